@@ -14,6 +14,8 @@ type shape struct {
 	nRefs, nLogs int
 	cfg          Config
 	objs         int // > 0: the refs share this many object ids (objects referenced from many blocks)
+	pad          int // > 0: ref names are padded with 'x' to this length (one ref per block)
+	noValues     bool // every ref is a deletion or a symbolic ref: nothing to put into an object index
 }
 
 func shapeName(i int) string {
@@ -42,6 +44,14 @@ func pickShape(which int) shape {
 		return shape{nLogs: 10, cfg: Config{BlockSize: 128, Unaligned: true}}
 	case 8: // few objects referenced from many ref blocks (position lists of 9..20 entries)
 		return shape{nRefs: 44, objs: 3, cfg: Config{BlockSize: 64, Unaligned: true, RestartInterval: 1}}
+	case 11: // refs without object ids (deletions and symbolic refs) in enough blocks for a ref index, logs after: no object section
+		return shape{nRefs: 16, nLogs: 2, noValues: true, cfg: Config{BlockSize: 96}}
+	case 12: // the same, unaligned, without logs
+		return shape{nRefs: 16, noValues: true, cfg: Config{BlockSize: 96, Unaligned: true}}
+	case 9: // one object in 70 ref blocks: a complete position list of 70 entries
+		return shape{nRefs: 70, objs: 1, pad: 180, cfg: Config{BlockSize: 256}}
+	case 10: // one object in about 145 of 170 ref blocks: the position list does not fit and is omitted
+		return shape{nRefs: 170, objs: 1, pad: 180, cfg: Config{BlockSize: 256}}
 	}
 	return shape{nRefs: 1}
 }
@@ -56,7 +66,14 @@ func buildShape(sh shape) (refs []*RefRecord, logs []*LogRecord) {
 	}
 	for i := 0; i < sh.nRefs; i++ {
 		r := &RefRecord{RefName: shapeName(i), UpdateIndex: 1 + uint64(i%3)}
-		if i%7 != 6 { // mostly value refs, some deletions
+		for len(r.RefName) < sh.pad {
+			r.RefName += "x"
+		}
+		if sh.noValues {
+			if i%2 == 1 {
+				r.Target = "refs/heads/" + shapeName(i)
+			}
+		} else if i%7 != 6 { // mostly value refs, some deletions
 			v := make([]byte, hs)
 			v[0] = byte(i)
 			v[1] = byte(i >> 8)
